@@ -10,9 +10,10 @@
    shape is appended to a data set that holds analog data (C05_frame_append_preserves_the_agreement) or points only
    (C05_frame_append_points_only), or REPLACES any stored frame, frame 0 included (C05_frame_replace_preserves_the_agreement;
    or extends the data set beyond the count — every index at once: C05_frame_any_index; the general form is
-   C05_frame_call_general).  NOT yet proved: the whole predicate for the first frame of an empty data set, for extensions of a
+   C05_frame_call_general), and by induction over the calls for a whole recording of appended frames (C05_recording_session); and c3d::parameter on
+   any other group keeps it (C05_parameter_elsewhere).  NOT yet proved: the whole predicate for the first frame of an empty data set, for extensions of a
    points-only data set, and for the column, declare and parameter calls: decided by the check. *)
-From EZ Require Import Base Types Api Proofs_Param Proofs_Guards Spec_Inv Proofs_Inv Proofs_Header Spec_Typed Proofs_Updaters Proofs_ApiSafe Proofs_InvFrame Float32 Run.
+From EZ Require Import Base Types Api Proofs_Param Proofs_Guards Spec_Inv Proofs_Inv Proofs_Header Spec_Typed Proofs_Updaters Proofs_ApiSafe Proofs_InvFrame Proofs_InvParam Float32 Run.
 Local Open Scope N_scope.
 
 Definition conforming (s : state) (o : op) : Prop :=
@@ -207,6 +208,31 @@ Theorem C05_frame_any_index : forall f_key f_tosize f_div f_is_zero,
 Proof. exact frame_any_index_keeps_inv. Qed.
 Print Assumptions C05_frame_any_index.
 
+(* A WHOLE RECORDING, by induction over the calls: any number of frames of the announced shape appended one after the other
+   (the shape announced ONCE, by the state the recording starts from) — after the last one header, parameters and stored frames
+   agree, and the data set holds exactly the frames supplied, in order *)
+Theorem C05_recording_session : forall f_key f_tosize f_div f_is_zero,
+  (forall x e, f_key x <> Throw e) -> (forall x e, f_tosize x <> Throw e) ->
+  forall fs s s' f0 ft a,
+  Inv s -> MT (groups s) -> frames s = f0 :: ft -> fr_subs f0 <> [] ->
+  lk_int0 (groups s) nm_ANALOG nm_USED = Some a -> a <> 0 -> Forall (announced s) fs ->
+  nlen (frames s) + nlen fs < 2147483648 -> nlen (fr_pts f0) < 2147483648 -> a < 2147483648 -> a * h_byframe (hdr s) < two64 ->
+  run_frames f_key f_tosize f_div f_is_zero fs s = ROk tt s' ->
+  Inv s' /\ frames s' = frames s ++ fs.
+Proof. exact frames_session_keeps_inv. Qed.
+Print Assumptions C05_recording_session.
+
+(* c3d::parameter() on any group other than POINT and ANALOG (created when it does not exist): the header and the frames
+   are exactly as before and the agreement holds — for every object whose header the updater has nothing to change, which is
+   what every mutator leaves behind (C05_after_every_call) *)
+Theorem C05_parameter_elsewhere : forall f_key f_tosize f_div gname p s s',
+  gname <> nm_POINT -> gname <> nm_ANALOG -> p_name p <> [] -> p_type p <> TNone ->
+  Inv s -> update_header f_key f_tosize f_div true s = ROk tt s ->
+  api_parameter f_key f_tosize f_div gname p s = ROk tt s' ->
+  Inv s' /\ hdr s' = hdr s /\ frames s' = frames s /\ groups s' = tree_after (groups s) gname p.
+Proof. exact parameter_elsewhere_keeps_inv. Qed.
+Print Assumptions C05_parameter_elsewhere.
+
 (* the general form: whatever the index (append, replace, extend), if the frame list after the store has a first frame with
    analog data of the announced shape and names, and every filled frame has the announced shape, the agreement holds again *)
 Theorem C05_frame_call_general : forall f_key f_tosize f_div f_is_zero,
@@ -333,3 +359,18 @@ Proof.
   - vm_compute. reflexivity.
 Qed.
 Print Assumptions C05_frame_replace_nonvacuous.
+
+(* non-vacuity: the demo data set is a fixpoint of the header updater; a parameter in a new group EXTRA keeps the agreement *)
+Example C05_parameter_elsewhere_nonvacuous :
+  let q := mkParam [78; 79; 84; 69] [] false TInt [2] [1; 2]%Z [] [] in
+  exists s', step_x c05_demo_state (OParam [69; 88; 84; 82; 65] q) = ROk tt s' /\ Inv s' /\ hdr s' = hdr c05_demo_state.
+Proof.
+  intros q. destruct (step_x c05_demo_state (OParam [69; 88; 84; 82; 65] q)) as [[] s'| |] eqn:E; [|vm_compute in E; discriminate|vm_compute in E; discriminate].
+  exists s'. split; [reflexivity|].
+  destruct (parameter_elsewhere_keeps_inv f_key_impl f_tosize_impl f_div_impl [69; 88; 84; 82; 65] q c05_demo_state s') as [A [B _]];
+    try exact E; try (intro X; apply Proofs_Lookup.bstr_eqb_eq in X; vm_compute in X; discriminate); try discriminate.
+  - vm_compute. reflexivity.
+  - vm_compute. reflexivity.
+  - split; assumption.
+Qed.
+Print Assumptions C05_parameter_elsewhere_nonvacuous.
